@@ -8,4 +8,5 @@ cd "$VERIF/harness"
 mkdir -p "$VERIF/.work" "$VERIF/evidence" "$VERIF/replays"
 cargo build --offline --release 2>&1 | tail -3
 cargo build --offline --profile ovf 2>&1 | tail -3
+( cd /repo && CARGO_TARGET_DIR="$VERIF/.cache/repo-target" cargo build --offline --release 2>&1 | tail -1 )
 echo "setup ok"
